@@ -198,6 +198,11 @@ SECOND = {
 }
 
 
+# the trigger is the reuse of a freed object's address (id()): detection is reliable in a batch, but whether one particular
+# plan hits the same address again in another interpreter is not under any harness's control, so "caught" is the criterion
+ADDRESS_DEPENDENT = {'c14-frequencies-cache-keyed-by-id'}
+
+
 def main():
     os.makedirs(OUT, exist_ok=True)
     for f in os.listdir(OUT):
@@ -223,6 +228,8 @@ def main():
             fh.write(diff)
         with open(os.path.join(OUT, name + '.meta'), 'w', encoding='utf-8') as fh:
             fh.write(f'property={prop}\nneeds={note}\n')
+            if name in ADDRESS_DEPENDENT:
+                fh.write('accept=caught\n')
     print(f'{len(M)} mutants written to {OUT}, {bad} anchor problems')
     return 1 if bad else 0
 
